@@ -429,6 +429,76 @@ def build_cases(rng, tier):
                            ["= found%d" % where, "= self=L0", "= " + ("true" if where == 0 and kind == "data" else "false")])
                     yield ("lookup missing depth %d" % depth, case_lines(obj_src("a", base), ["print '= {a.nothere}'"]), ["E"])
 
+CMP_KEYS = ["@==", "@!=", "@<", "@<=", "@>", "@>="]
+
+def rand_obj(rng, tag):
+    """An object with a random subset of all operator metakeys (plain, @r and compound arithmetic, comparisons, negate), random behaviours, own or shared metamap."""
+    keys = {}
+    dens = rng.choice((0.15, 0.4, 0.8))
+    for op, _ in ARITH:
+        if rng.random() < dens: keys["@" + op] = rng.choice(("ret", "unimpl", "err"))
+        if rng.random() < dens: keys["@r" + op] = rng.choice(("ret", "unimpl", "err"))
+        if rng.random() < dens / 2: keys["@%s=" % op] = rng.choice(("ret", "err", "self"))
+    for k in CMP_KEYS:
+        if rng.random() < dens: keys[k] = rng.choice(("T", "F", "T", "F", "err"))
+    if rng.random() < 0.3: keys["@negate"] = rng.choice(("ret", "err"))
+    if not keys or rng.random() < 0.3: keys["@type"] = "T" + tag
+    return Obj(tag, keys, shared=rng.random() < 0.3)
+
+def random_cases(rng, n):
+    """Objects carrying many metakeys at once (the grid above varies one operator's keys at a time): the key that runs must be
+    the one the operator names, whatever else is defined next to it, on either operand."""
+    others = list(OTHERS.items())
+    for _ in range(n):
+        A, B = rand_obj(rng, "A"), rand_obj(rng, "B")
+        setup_a, setup_ab = obj_src("a", A), obj_src("a", A) + obj_src("b", B)
+        kind = rng.choice(("arith", "arith", "cmp", "cmp", "compound", "negate"))
+        m = Model()
+        if kind == "arith":
+            op = rng.choice(ARITH)[0]
+            form = rng.choice(("A-o", "o-A", "A-B", "B-A"))
+            oname, (otext, oval) = rng.choice(others)
+            L, R, lt, rt, setup = {"A-o": (A, oval, "a", otext, setup_a), "o-A": (oval, A, otext, "a", setup_a), "A-B": (A, B, "a", "b", setup_ab), "B-A": (B, A, "b", "a", setup_ab)}[form]
+            try:
+                r = arith(m, L, R, op); m.t.append("= " + m.sh(r))
+            except Err:
+                m.t.append("E")
+            yield ("rand-arith %s %s %s" % (form, op, oname), case_lines(setup, ["r = %s %s %s" % (lt, op, rt), "print '= {sh r}'"]), m.t)
+        elif kind == "cmp":
+            op = rng.choice(CMP)
+            form = rng.choice(("A-o", "A-B", "A-A", "num-A"))
+            if form == "num-A":
+                m.t.append("= " + ("false" if op == "==" else "true") if op in ("==", "!=") else "E")
+                yield ("rand-cmp num %s A" % op, case_lines(setup_a, ["r = 1 %s a" % op, "print '= {r}'"]), m.t)
+                continue
+            oname, otext, oval = rng.choice([("num", "1", 1), ("null", "null", None), ("map", "{x: 1}", PlainMap()), ("str", "'s'", "s")])
+            R, rt, setup = {"A-o": (oval, otext, setup_a), "A-B": (B, "b", setup_ab), "A-A": (A, "a", setup_a)}[form]
+            try:
+                r = compare(m, A, R, op); m.t.append("= " + disp(r))
+            except Err:
+                m.t.append("E")
+            yield ("rand-cmp %s %s %s" % (form, op, oname), case_lines(setup, ["r = a %s %s" % (op, rt), "print '= {r}'"]), m.t)
+        elif kind == "compound":
+            op = rng.choice(ARITH)[0]
+            key = "@%s=" % op
+            oname, (otext, oval) = rng.choice(others[:3])
+            if key in A.keys:
+                try:
+                    m.call(A, key, [oval]); m.t.append("= obj:A")
+                except (Err, Unimpl):
+                    m.t.append("E")
+            else:
+                m.t.append("E")
+            yield ("rand-compound %s %s" % (key, oname), case_lines(setup_a, ["x = a", "x %s= %s" % (op, otext), "print '= {sh x}'"]), m.t)
+        else:
+            try:
+                if "@negate" in A.keys: m.t.append("= " + m.sh(m.call(A, "@negate", [])))
+                else: raise Err()
+            except (Err, Unimpl): m.t.append("E")
+            yield ("rand-negate", case_lines(setup_a, ["r = -a", "print '= {sh r}'"]), m.t)
+
+RANDOM_CASES = {"quick": 3000, "thorough": 120000}
+
 LOOP_OBJ = """cnt = {n: 0}
 hit = |v|
   cnt.n += 1
@@ -494,7 +564,7 @@ def split(stdout):
 def _shard(shard, n, tier, seed):
     w = Worker()
     rep = {"violations": [], "cases": 0, "classes": {}, "samples": [], "trace_lines": 0}
-    cases = [c for i, c in enumerate(list(build_cases(random.Random(seed), tier)) + list(loop_cases())) if i % n == shard]
+    cases = [c for i, c in enumerate(list(build_cases(random.Random(seed), tier)) + list(loop_cases()) + list(random_cases(rng_for(seed, 'c17-random'), RANDOM_CASES.get(tier, 3000)))) if i % n == shard]
     for i in range(0, len(cases), 20):
         batch = cases[i:i + 20]
         text, want = render(batch)
@@ -544,6 +614,6 @@ def run(tier, seed):
                    "{absent / returns / unimplemented / throws}; 6 compound assignments x {absent / returns / throws / returns self} x {with, without the plain operator}; 6 comparisons x 13 key subsets x "
                    "truth values x a throwing key x {number, null, object, itself, plain map} on the right and a number on the left; negate / call / index / index-assign / access / access-assign / display / "
                    "debug / size / type / iteration (@next before @iterator, adaptor use) each absent / returning / throwing and own / shared; lookups through data, @meta and @base chains of depth 1-3 with "
-                   "self bound to the derived object. host objects: see streams.host-objects. Every case prints the metakey calls with their operands and the outcome; the whole trace is compared.")
+                   "self bound to the derived object; random stream (3 000 quick / 120 000 thorough): two objects each carrying a random subset of all 18 arithmetic keys (@op, @r<op>, @<op>=), the 6 comparison keys and @negate with random behaviours, own or shared, one random operation in a random operand arrangement (object-primitive, primitive-object, object-object both ways, object with itself) - the key that runs must be the one the operator names whatever is defined next to it. host objects: see streams.host-objects. Every case prints the metakey calls with their operands and the outcome; the whole trace is compared.")
     return chk.finish(cov, assumptions=["operator expressions are used (assigned) - statements whose value is unused do not run the operator at all (finding F-O1, replayed as a witness)",
                                          "guide-silent cells are pinned to the pinned implementation: maps without @+ are merged by `+`, comparisons with null never consult @== / @!=, compound assignment does not fall back to the plain operator, operators are not inherited through @base"])
